@@ -17,7 +17,6 @@ NA = {
     "C18": "serde_json/ciborium round trips are external generic code over untagged recursive enums; not encodable within reach",
     "C20": "AES correctness/invertibility is a SAT-hard equivalence over external cipher crates; only an eight-arm dispatch lives in the repository",
 }
-NA["C05"] = "validity, low-S and RFC 6979 equality of signatures and ECDH symmetry live in k256/ecdsa/rfc6979 (scalar multiplication, HMAC-DRBG): not encodable within reach; no partial check was built"
 DEFAULT_NA = "no solver-based check of this property returns verdicts in this framework yet (see DESIGN.md §5); not claimed"
 
 props = [json.loads(l) for l in open("/verif/properties.jsonl")]
